@@ -24,6 +24,8 @@ tests/nix-files/pkgs/trl-default.nix) or to an RFC 0166 paragraph:
   heads: `{ a }:` `{ a, b }:` `{ a, ... }:`        test_function_definition_multiline / _expression
   multi-line formals with trailing comma           trl-default.nix (pass-through only: the pinned grammar rejects them)
   `let … in` block before the body                 trl-default.nix
+  chains of 2-4 directly nested let blocks         docs/cli.md ("Update an outer scope binding": let/in/let/in/body)
+  non-ASCII text in comments and string values      the property's "whatever the ... literal values"; layout identical to ASCII
   bodies: set, `f { … }`, `f rec { … }`            test_function_calls_function / _recursive_function
 """
 from __future__ import annotations
@@ -98,6 +100,10 @@ def m_if(i, n):
     return [f"{IND*i}c{n} = if stdenv.isLinux then a else b;"]
 
 
+def m_utf8(i, n):
+    return [f'{IND*i}u{n} = "Jörg «x» ✓";']
+
+
 def m_istr(i, n):
     return [f"{IND*i}t{n} = ''", f"{IND*(i+1)}echo hi", f"{IND*(i+1)}make install", f"{IND*i}'';"]
 
@@ -105,7 +111,7 @@ def m_istr(i, n):
 MEMBERS = {
     "scalar": m_scalar, "string": m_string, "bool": m_bool, "select": m_select, "list1": m_list1, "mllist": m_mllist,
     "nested": m_nested, "call": m_call, "with": m_with, "attrpath": m_attrpath, "inherit": m_inherit,
-    "inherit_from": m_inherit_from, "empty": m_empty, "emptylist": m_emptylist, "if": m_if, "istr": m_istr,
+    "inherit_from": m_inherit_from, "empty": m_empty, "emptylist": m_emptylist, "if": m_if, "istr": m_istr, "utf8": m_utf8,
 }
 # decorations attach to a member position: (kind, position)
 DECOS = ["own_comment", "blank", "eol_comment", "block_comment", "blank_own_comment"]
@@ -148,13 +154,19 @@ LETS = {
     "none": [],
     "let1": ["let", '  owner = "huggingface";', "in"],
     "let2": ["let", '  owner = "huggingface";', "  # We love comments here", "  acc = accelerate;", "in"],
+    # chains of directly nested let blocks (cli.md "Update an outer scope binding" shows the two-block form)
+    "chain2": ["let", "  a = 1;", "in", "let", "  b = a;", "in"],
+    "chain3": ["let", "  a = 1;", "in", "let", "  b = a;", "in", "let", "  c = b;", "in"],
+    "chain4": ["let", "  a = 1;", "in", "let", "  b = a;", "in", "let", "  c = b;", "in", "let", "  d = c;", "in"],
 }
 BODIES = ["set", "call", "callrec"]
 
 
 def render_file(header, head, let, body, kinds, decos):
     lines = []
-    if header:
+    if header == "utf8":
+        lines.append("# maintained by Jörg «x» ✓")
+    elif header:
         lines.append("# header comment")
     lines += HEADS[head]
     lines += LETS[let]
@@ -243,8 +255,8 @@ def specs(tier):
                         continue
                     out.append((False, "none", "none", "set", kinds, decos))
     # (3) heads x lets x bodies x header over a representative set of member sequences
-    seqs = [("scalar",), ("scalar", "mllist"), ("call", "nested", "with"), ("inherit", "attrpath", "istr"), ("string", "list1", "if", "empty")]
-    for header in (False, True):
+    seqs = [("scalar",), ("scalar", "mllist"), ("call", "nested", "with"), ("inherit", "attrpath", "istr"), ("string", "list1", "if", "empty"), ("utf8", "inherit_from", "istr", "mllist")]
+    for header in (False, True, "utf8"):
         for head in HEADS:
             for let in LETS:
                 for body in BODIES:
